@@ -51,6 +51,7 @@ type Layer struct {
 	Barrier   bool   // barrierErr layer (hides Node.Hidden[0])
 	Secondary bool   // withSecondaryError layer
 	Mark      bool   // withMark layer
+	Hides     *gen.Node // for barrier / secondary layers: the descriptor of the error they hide
 
 	Node *gen.Node // owning descriptor node
 }
@@ -104,6 +105,8 @@ func sentinelLayers(i int) []Layer {
 		return []Layer{withStack("verifharness/gen.init"), leafError}
 	case 10:
 		return []Layer{harnessL("*gen.NoFmtLeaf")}
+	case 13:
+		return []Layer{L("*poll.DeadlineExceededError", "internal/poll")}
 	}
 	return []Layer{goErrorString}
 }
@@ -115,8 +118,24 @@ func OwnLayers(n *gen.Node) []Layer {
 	st := func() Layer { return withStack(gen.BuildFn) }
 	var out []Layer
 	switch n.Kind {
-	case "new", "newf":
+	case "new", "newf", "errorf":
 		out = []Layer{st(), leafError}
+	case "protoleaf":
+		out = []Layer{libL("errorspb", "TestError")}
+	case "rterr":
+		out = []Layer{[]Layer{L("runtime.plainError", "runtime"), L("runtime.errorString", "runtime"), L("*runtime.TypeAssertionError", "runtime")}[n.N[0]]}
+	case "unimplf":
+		l := libL("issuelink", "unimplementedError")
+		l.Unimpl = true
+		h := UnimplHint
+		if S[2] != "" {
+			h += "\nSee: " + S[2]
+		} else {
+			h += Referral
+		}
+		l.Hint, l.HasHint = h, true
+		l.Link = &[2]string{S[2], S[3]}
+		out = []Layer{l}
 	case "assertf":
 		out = []Layer{assertL, st(), leafError}
 	case "unimpl":
@@ -178,6 +197,18 @@ func OwnLayers(n *gen.Node) []Layer {
 	case "detail":
 		l := libL("hintdetail", "withDetail")
 		l.Detail, l.HasDetail = S[0], true
+		out = []Layer{l}
+	case "hintf":
+		l := libL("hintdetail", "withHint")
+		l.Hint, l.HasHint = S[0]+" "+S[1], true
+		out = []Layer{l}
+	case "detailf":
+		l := libL("hintdetail", "withDetail")
+		l.Detail, l.HasDetail = S[0]+" "+S[1], true
+		out = []Layer{l}
+	case "telemetry0":
+		l := libL("telemetrykeys", "withTelemetry")
+		l.Keys = []string{}
 		out = []Layer{l}
 	case "safedetails":
 		out = []Layer{libL("safedetails", "withSafeDetails")}
@@ -248,7 +279,7 @@ func OwnLayers(n *gen.Node) []Layer {
 		out = []Layer{harnessL("*gen.FmtrWrap")}
 	case "elidewrap":
 		out = []Layer{harnessL("*gen.ElideWrap")}
-	case "handled", "handledmsg":
+	case "handled", "handledmsg", "handledmsgf", "opaque":
 		out = []Layer{barrierErr}
 	case "handleddomain", "handleddommsg":
 		out = []Layer{domainL(named(S[0])), barrierErr}
@@ -264,8 +295,10 @@ func OwnLayers(n *gen.Node) []Layer {
 		l := libL("markers", "withMark")
 		l.Mark = true
 		out = []Layer{l}
-	case "secondary":
+	case "secondary", "combine":
 		out = []Layer{secondaryL}
+	case "newfwe":
+		out = []Layer{st(), secondaryL, secondaryL, libL("errutil", "withNewMessage")}
 	case "wrapfe":
 		out = []Layer{st(), secondaryL, withPrefix}
 	case "join":
@@ -281,8 +314,20 @@ func OwnLayers(n *gen.Node) []Layer {
 	default:
 		panic("model.OwnLayers: unknown kind " + n.Kind)
 	}
+	nsec := 0
 	for i := range out {
 		out[i].Node = n
+		if out[i].Barrier || out[i].Secondary {
+			switch {
+			case n.Kind == "newfw":
+				out[i].Hides = n.Kids[0] // the %w argument is also recorded as a secondary error
+			case n.Kind == "newfwe" && nsec == 1:
+				out[i].Hides = n.Kids[0]
+			case len(n.Hidden) > 0:
+				out[i].Hides = n.Hidden[0]
+			}
+			nsec++
+		}
 	}
 	return out
 }
@@ -303,6 +348,16 @@ func Text(n *gen.Node) string {
 		return p + ": " + k(0)
 	}
 	switch n.Kind {
+	case "protoleaf":
+		return "test error"
+	case "rterr":
+		return gen.RuntimeErrors[n.N[0]].Error()
+	case "errorf":
+		return S[1] + " " + S[0] + " " + S[2]
+	case "unimplf", "handledmsgf":
+		return S[0] + " " + S[1]
+	case "newfwe":
+		return S[0] + " " + k(0) + " " + S[1] + " " + h(0)
 	case "goerr", "new", "pkgnew", "nofmtleaf", "fmtleaf", "unimpl", "domnew", "gstatus",
 		"oldfmtleaf", "fmtrleaf", "ncleaf", "isleaf", "lowleaf", "elidewrap", "handledmsg":
 		return S[0]
@@ -328,11 +383,12 @@ func Text(n *gen.Node) string {
 	case "safefmtwrap":
 		return "safe " + S[0] + ": " + k(0)
 	case "withstack", "hint", "detail", "safedetails", "telemetry", "domain", "issuelink", "tags", "tagsafe",
-		"assertion", "mark", "secondary", "http", "grpc", "pkgstack", "emptywrap", "wrapempty":
+		"assertion", "mark", "secondary", "http", "grpc", "pkgstack", "emptywrap", "wrapempty",
+		"hintf", "detailf", "telemetry0", "combine":
 		return k(0)
 	case "newfw":
 		return S[0] + " " + k(0) + " " + S[1]
-	case "handled", "handleddomain", "handleassert", "domhandled":
+	case "handled", "handleddomain", "handleassert", "domhandled", "opaque":
 		return h(0)
 	case "handleddommsg":
 		return S[1]
@@ -610,4 +666,7 @@ func Display(n *gen.Node) []VLayer {
 }
 
 // IsLib reports whether a layer is one of the library's own types.
-func (l Layer) IsLib() bool { return strings.HasPrefix(l.Family, lib) }
+func (l Layer) IsLib() bool {
+	// errorspb.TestError is a protobuf message "meant for use in testing only"; it has no Format method.
+	return strings.HasPrefix(l.Family, lib) && !strings.HasSuffix(l.Family, "errorspb.TestError")
+}
